@@ -381,7 +381,7 @@ def run_snap_report(R, binary):
     if R.tier == "quick":
         per_profile, events, workers = 5, 250, 1
     else:
-        per_profile, events, workers = 600, 600, max(2, min(10, (os.cpu_count() or 4) - 2))
+        per_profile, events, workers = 400, 600, max(2, min(10, (os.cpu_count() or 4) - 2))
     lines, harness_s, rc_all, t_suite = [], 0.0, 0, time.time()
     for k, prof in enumerate(("snap-report", "snap-report-partition")):
         t0 = time.time()
